@@ -1,0 +1,82 @@
+//go:build verif
+
+// Contracts for the account-balance server (package abmf). Compiled only under the build tag "verif".
+
+package abmf
+
+import (
+	"strconv"
+
+	charging_datatype "github.com/free5gc/chf/ccs_diameter/datatype"
+)
+
+func verif_forall[T any](f func(T) bool) bool        { return true }
+func verif_forall2[A, B any](f func(A, B) bool) bool { return true }
+
+// ---- ghost state (updated by the assumed contracts of go-diameter and mongoapi) -----------
+var (
+	ghostUnmarshalled any                          // destination of the last Message.Unmarshal
+	ghostUnmarshalErr error                        // its result
+	ghostMarshalled   any                          // value of the last Message.Marshal
+	ghostWrites       int                          // number of Message.WriteTo calls
+	ghostQuota        map[string]map[uint32]string // account balance (decimal string) per (ueId, ratingGroup)
+)
+
+func specReq() *charging_datatype.AccountDebitRequest {
+	return ghostUnmarshalled.(*charging_datatype.AccountDebitRequest)
+}
+
+func specAns() *charging_datatype.AccountDebitResponse {
+	return ghostMarshalled.(*charging_datatype.AccountDebitResponse)
+}
+
+// specNames: the request was decoded, carries the mandatory AVPs and names account (ue, rg)
+func specNames(r *charging_datatype.AccountDebitRequest, ue string, rg uint32) bool {
+	return ghostUnmarshalErr == nil && r.SubscriptionId != nil && r.MultipleServicesCreditControl != nil &&
+		r.SubscriptionId.SubscriptionIdType == charging_datatype.END_USER_IMSI &&
+		ue == "imsi-"+string(r.SubscriptionId.SubscriptionIdData) && rg == uint32(r.MultipleServicesCreditControl.RatingGroup)
+}
+
+// specAcct: account (ue, rg) exists with a well-formed, non-negative balance
+func specAcct(ue string, rg uint32) bool {
+	m, ok := ghostQuota[ue]
+	if !ok {
+		return false
+	}
+	q, ok := m[rg]
+	if !ok {
+		return false
+	}
+	v, err := strconv.ParseInt(q, 10, 64)
+	return err == nil && v >= 0
+}
+
+// specBal: the stored balance of account (ue, rg)
+func specBal(ue string, rg uint32) int64 {
+	v, _ := strconv.ParseInt(ghostQuota[ue][rg], 10, 64)
+	return v
+}
+
+func specIsReserve(r *charging_datatype.AccountDebitRequest) bool {
+	return r.RequestedAction == charging_datatype.DIRECT_DEBITING &&
+		(r.CcRequestType == charging_datatype.INITIAL_REQUEST || r.CcRequestType == charging_datatype.UPDATE_REQUEST)
+}
+
+func specMin(a, b int64) int64 {
+	if a < b {
+		return a
+	}
+	return b
+}
+
+// The handler's real input is the decoded request. Mandatory AVPs are an environment
+// precondition stated where the decoded request first exists: Subscription-Id and MSCC always,
+// Requested-Service-Unit for reservations and refunds, Used-Service-Unit for termination debits;
+// amounts are in 0..2^63-1 as the property states.
+//@ func handleCCR$1 [C07]
+//@   requires c != nil && m != nil
+//@   assume "switch ccr.SubscriptionId.SubscriptionIdType": ccr.SubscriptionId != nil && ccr.MultipleServicesCreditControl != nil
+//@   assume "switch ccr.SubscriptionId.SubscriptionIdType": (ccr.RequestedAction == charging_datatype.REFUND_ACCOUNT || specIsReserve(&ccr)) ==> ccr.MultipleServicesCreditControl.RequestedServiceUnit != nil && int64(ccr.MultipleServicesCreditControl.RequestedServiceUnit.CCTotalOctets) >= 0
+//@   assume "switch ccr.SubscriptionId.SubscriptionIdType": ccr.RequestedAction == charging_datatype.DIRECT_DEBITING && ccr.CcRequestType == charging_datatype.TERMINATION_REQUEST ==> ccr.MultipleServicesCreditControl.UsedServiceUnit != nil && int64(ccr.MultipleServicesCreditControl.UsedServiceUnit.CCTotalOctets) >= 0
+//@   ensures forall ue string, rg uint32 :: specNames(specReq(), ue, rg) && old(specAcct(ue, rg)) ==> ghostWrites == old(ghostWrites) + 1
+//@   ensures forall ue string, rg uint32 :: specNames(specReq(), ue, rg) && old(specAcct(ue, rg)) ==> specAns().SessionId == specReq().SessionId && specAns().CcRequestType == specReq().CcRequestType && specAns().CcRequestNumber == specReq().CcRequestNumber
